@@ -235,7 +235,8 @@ fn make_ruleset(tree: &RE, world: &Arc<Mutex<World>>) -> Result<RuleSet, String>
     ruleset()
         .with_rule(Rule::new("r", BTreeMap::new(), tree.to_expr()))
         .and_then(|b| b.with_function(probe("p", false, &handler)))
-        .and_then(|b| b.with_function(probe("q", false, &handler)))
+        // the second probe goes through the boxed registration entry point
+        .and_then(|b| b.with_functions(vec![Box::new(probe("q", false, &handler)) as Box<dyn UserFunction + Send + Sync + 'static>]))
         .map(|b| b.build())
         .map_err(|e| format!("cannot build ruleset: {e}"))
 }
